@@ -61,6 +61,11 @@ func genC19(r *prng) *plan {
 		p.Cfg["restart"] = 1
 		p.Cfg["b2"] = int64([]int{0, 1, 2, 7}[r.intn(4)])
 	}
+	if p.Cfg["mode"] == 0 && idx >= n1+n2 && p.Cfg["restart"] == 0 && r.chance(60) {
+		// afterwards a second peer that advertises no versions at all: the node's base version is its own
+		// first-listed one, whatever it negotiated with others before
+		p.Cfg["second"] = 1
+	}
 	p.Ops = []opSpec{{K: "offer_in"}, {K: "find_in"}, {K: "offer_out"}, {K: "find_out"}}
 	// random order of the four exchanges
 	for i := len(p.Ops) - 1; i > 0; i-- {
@@ -368,6 +373,8 @@ func runC19(seed uint64) {
 	}
 	if bi2 := int(p.cfg("b2")); p.cfg("restart") == 1 && bi <= 7 {
 		c19Restart(w, V, P, ncfg, vMine, ai, bi, bi2, keys, bigKey, bigVal)
+	} else if p.cfg("second") == 1 {
+		c19SecondPeer(w, V, vMine, ai, bi, keys, bigKey, bigVal)
 	}
 	w.res.Nontrivial = true
 	w.finish()
@@ -590,5 +597,74 @@ func c19RealReal(w *world, p *plan, V *baseNode, vp *proto, ai, bi int, bigKey, 
 				w.probe("rr_find_refused")
 			}
 		}
+	}
+}
+
+// c19SecondPeer: after the exchanges with the first peer, a peer without any version entry offers and asks:
+// the node must use its own first-listed version for it (history must not change what "base" means).
+func c19SecondPeer(w *world, V *baseNode, vMine []uint8, ai, bi int, keys [][]byte, bigKey, bigVal []byte) {
+	mine := vMine
+	if mine == nil {
+		mine = c19Builtin
+	}
+	base := mine[0]
+	if base > 1 {
+		return // a base version the build has no encoding for: nothing to assert
+	}
+	Q := w.newPuppet(nodeCfg{name: "Q", port: 9005, key: detKey(w.seed, 5), versions: nil, maxUtp: 20})
+	w.runFor(30 * time.Millisecond)
+	w.op("second peer without a version entry (after a peer advertising %s): base version %d expected", c19Name(bi), base)
+	w.abstract("second %d", bi)
+	var resp []byte
+	okc, err := w.call("offer_in_q", 10*time.Second, func() error {
+		var e error
+		resp, e = Q.talk(V.self(), portalwire.History, encOffer(keys))
+		return e
+	})
+	if !okc || err != nil {
+		w.probe("second_peer_request_lost")
+		return
+	}
+	a := decAccept(base, resp)
+	bodyLen, wantLen := len(resp)-7, len(keys)
+	if base == 0 {
+		wantLen = len(keys)/8 + 1
+	}
+	if !a.ok || bodyLen != wantLen || len(a.codes) != len(keys) {
+		w.violate("C19", "accept-encoding", "V advertises %s; a peer that advertises no versions (after exchanges with a peer advertising %s): the base version is %d, but the ACCEPT for %d keys has a %d-byte verdict field (v%d needs %d)", c19Name(ai), c19Name(bi), base, len(keys), bodyLen, base, wantLen)
+	} else {
+		w.probe(fmt.Sprintf("second_offer_in_v%d", base))
+	}
+	okc, err = w.call("find_in_q", 10*time.Second, func() error {
+		var e error
+		resp, e = Q.talk(V.self(), portalwire.History, encFindContent(bigKey))
+		return e
+	})
+	if !okc || err != nil {
+		return
+	}
+	rep := decContent(resp)
+	if rep.kind != "connid" {
+		w.violate("C19", "find-reply", "FINDCONTENT for a %d-byte item was not answered with a connection id (%s)", len(bigVal), rep.kind)
+		return
+	}
+	var data []byte
+	okc, err = w.call("find_in_q_utp", 150*time.Second, func() error {
+		var e error
+		data, e = Q.fetchUtp(V.self(), rep.connID, 100*time.Second)
+		return e
+	})
+	if !okc || err != nil {
+		w.violate("C19", "transfer-failed", "V advertises %s, peer without versions (base version %d): the large FINDCONTENT transfer failed: %v", c19Name(ai), base, err)
+		return
+	}
+	want := bigVal
+	if base == 1 {
+		want = append(leb128(uint32(len(bigVal))), bigVal...)
+	}
+	if !bytes.Equal(data, want) {
+		w.violate("C19", "utp-framing", "V advertises %s; a peer that advertises no versions (after a peer advertising %s): the base version is %d, but the stream (%d bytes) is not the v%d framing of the %d-byte item", c19Name(ai), c19Name(bi), base, len(data), base, len(bigVal))
+	} else {
+		w.probe(fmt.Sprintf("second_find_in_v%d", base))
 	}
 }
